@@ -8,6 +8,18 @@ CHECKS = {
  "C01": ("bounded-exhaustive input-space exploration of the real BooleanOpPaths64 against an exact winding-number reference model",
          "Every closed (subject, clip) input of the stated scopes (all vertex sequences on small lattices under 4-5 embeddings) x 16 (clip type, fill rule) is executed on the implementation and compared, witness by witness, with an independent exact winding oracle; complete enumeration, no sampling. Right level: the property quantifies over all inputs and the failure modes (ties, rounding, self-intersection repair) are combinatorial in small vertex configurations.",
          "small-scope hypothesis (<=6 vertices/path, <=3 paths, 5 embeddings); witness lattice pitch 1/2; the ~200-line exact oracle is trusted", "DESIGN.md 4/C01"),
+ "C02": ("bounded-exhaustive input-space exploration of the real engine (all 16 configurations x option settings) against structural and exact winding-number oracles",
+         "Every closed input of the stated scopes x 16 (clip type, fill rule) x {preserveCollinear, reverseSolution} is executed; each solution is checked for >=3 vertices, no repeated cyclic neighbours, total winding in {0,1} ({-1,0} reversed) at every witness > 2 units from solution edges, reversal = same region with negated area, re-union region-equal. Complete enumeration of the scopes.",
+         "small-scope hypothesis; winding defects confined to the 2-unit band of solution edges are allowed by the statement", "DESIGN.md 4/C02"),
+ "C14": ("exhaustive enumeration of operand alphabets and small path/polygon spaces against math/big reference predicates",
+         "All point triples / quadruples over explicit operand alphabets (0, +-1, +-2, 2^26+1, 2^29...) and all paths/polygons of P(3,3..6), P(4,3..5) under unit, stride-10 and 2^28 embeddings are pushed through Area64, AreaPaths64, IsPositive64, PointInPolygon, GetBounds64, isCollinear, productsAreEqual and compared with exact big-integer arithmetic.",
+         "finite operand alphabet; reference predicates in math/big", "DESIGN.md 4/C14"),
+ "C15": ("exhaustive enumeration of small paths; reference model = explicit-state exploration of the vertex-removal rewriting system",
+         "For every closed and open path of the scopes the set of all states reachable by deleting exactly-collinear vertices (<= 2^n subsets) is explored; TrimCollinear64's answer must be a reachable terminal state (or empty when < 3 vertices can remain), with exact area equality, end points kept, idempotence and input unchanged.",
+         "<= 7 vertices, four embeddings", "DESIGN.md 4/C15"),
+ "C19": ("bounded-exhaustive exploration comparing the library's own seven solutions per input with each other (exact areas + witness-wise set identities), plus a complete parametric grid of large inputs",
+         "For every input of the scopes and every fill rule the seven solutions U, I, D(S,C), D(C,S), X, U(S), U(C) are computed by the real library; exact big-integer areas must satisfy the four identities within 2 x edge length and the solutions must partition each other witness by witness; the parametric large family (64..2048 vertices) is enumerated completely over its parameter grid.",
+         "small-scope hypothesis for lattice scopes; large family is a finite parameter grid; areas used only when the C02 oracle holds for the outputs", "DESIGN.md 4/C19"),
 }
 NOT_YET = "check not built yet in this round (planned in DESIGN.md section 4); no claim is made"
 def main():
